@@ -422,7 +422,123 @@ def history_check(b, want):
     return out
 
 
-def solution_keys(b):
+MUTATORS = {"minimize", "maximize", "subject_to", "solve", "_invalidate_caches"}
+
+
+def readonly_helpers(problem):
+    """every attribute / zero-argument method of Problem that only reports, enumerated from the class itself
+    (public ones and the private predicates solve() consults); returns [(label, thunk)]"""
+    import inspect
+
+    out = [("repr", lambda: repr(problem)), ("str", lambda: str(problem))]
+    cls = type(problem)
+    for name in sorted(dir(cls)):
+        if name in MUTATORS or (name.startswith("__")):
+            continue
+        attr = inspect.getattr_static(cls, name)
+        if isinstance(attr, property):
+            out.append((name, lambda name=name: getattr(problem, name)))
+        elif inspect.isfunction(attr):
+            params = [p for p in list(inspect.signature(attr).parameters.values())[1:]
+                      if p.default is inspect.Parameter.empty and p.kind in (p.POSITIONAL_ONLY, p.POSITIONAL_OR_KEYWORD)]
+            if not params:
+                out.append((name + "()", lambda name=name: getattr(problem, name)()))
+    return out
+
+
+def readonly_history_check(b, want, wb, rng, with_edit=True):
+    """reporting helpers interleaved between the operations of a history change nothing that is observed later, and
+    the lists handed out earlier stay what they were"""
+    import optyx
+    from optyx.core.expressions import get_all_variables
+
+    prob = b.problem
+    fails = []
+    kept = []                      # (label, the returned list object, a snapshot of it)
+
+    def observe_now(stage, want_names, want_bounds):
+        with warnings.catch_warnings():
+            warnings.simplefilter("ignore")
+            vs = prob.variables
+            names = [v.name for v in vs]
+            bs = prob.get_bounds()
+        kept.append((stage + ":variables", vs, list(vs)))
+        kept.append((stage + ":bounds", bs, list(bs)))
+        if names != want_names:
+            fails.append({"what": "variables changed after read-only helper calls", "stage": stage, "got": names[:40], "want": want_names[:40]})
+        elif want_bounds is not None and [[None if x is None else float(x) for x in p] for p in bs] != want_bounds:
+            fails.append({"what": "get_bounds changed after read-only helper calls", "stage": stage, "got": str(bs)[:200]})
+        if prob.n_variables != len(want_names):
+            fails.append({"what": "n_variables changed after read-only helper calls", "stage": stage})
+
+    def call_helpers(stage):
+        helpers = readonly_helpers(prob)
+        rng.shuffle(helpers)
+        for label, thunk in helpers + helpers[:3]:
+            try:
+                with warnings.catch_warnings(), np.errstate(all="ignore"):
+                    warnings.simplefilter("ignore")
+                    thunk()
+            except Exception as ex:  # noqa: BLE001
+                fails.append({"what": "a read-only helper raised", "helper": label, "stage": stage, "error": f"{type(ex).__name__}: {ex}"[:160]})
+            with warnings.catch_warnings():
+                warnings.simplefilter("ignore")
+                now = [v.name for v in prob.variables]
+            if now != stage_want[0]:
+                fails.append({"what": "a read-only helper changed Problem.variables", "helper": label, "stage": stage,
+                              "got": now[:40], "want": stage_want[0][:40]})
+                return
+        # expression-level reporting on the objective and the constraints
+        with warnings.catch_warnings(), np.errstate(all="ignore"):
+            warnings.simplefilter("ignore")
+            for e in ([prob.objective] if prob.objective is not None else []) + [c.expr for c in prob.constraints[:4]]:
+                _ = e.degree, e.is_linear(), get_all_variables(e)
+                try:
+                    _ = repr(e)
+                except RecursionError:
+                    # repr() of a chain a few hundred operators deep exceeds the interpreter's recursion limit
+                    # (clean-tree behaviour, outside this property; reported)
+                    pass
+            for c in prob.constraints[:4]:
+                try:
+                    _ = repr(c), c.get_variables()
+                except RecursionError:
+                    pass
+
+    stage_want = [want]
+    observe_now("fresh", want, wb)
+    call_helpers("after-build")
+    observe_now("after-helpers", want, wb)
+    # a solve result (stubbed backend) and its accessors, then the helpers again
+    if prob.objective is not None and want:
+        try:
+            keys = solution_keys(b, accessors=True)
+            if keys != want:
+                fails.append({"what": "keys of Solution.values differ after read-only helper calls", "got": (keys or [])[:40], "want": want[:40]})
+        except RecursionError:
+            pass        # compiling a chain several hundred operators deep: the depth property (C15), not this one
+        except Exception as ex:  # noqa: BLE001
+            fails.append({"what": "solve raised after read-only helper calls", "error": f"{type(ex).__name__}: {ex}"[:160]})
+        call_helpers("after-solve")
+        observe_now("after-solve", want, wb)
+    if with_edit:
+        extra = optyx.Variable("zz_ro7", lb=0, ub=3, domain=rng.choice(["continuous", "integer", "binary"]))
+        prob.subject_to(extra + 1 >= 0)
+        w2 = sorted(set(want) | {"zz_ro7"}, key=natural_key)
+        stage_want[0] = w2
+        call_helpers("after-edit")
+        observe_now("after-edit", w2, None)
+        call_helpers("after-edit-2")
+        observe_now("after-edit-2", w2, None)
+    # results of earlier calls stay valid: every list handed out is still what it was when it was returned
+    for label, obj, snap in kept:
+        if len(obj) != len(snap) or any(a is not b_ and a != b_ for a, b_ in zip(obj, snap)):
+            fails.append({"what": "a list returned by an earlier call was changed by later calls", "which": label})
+            break
+    return fails[:3]
+
+
+def solution_keys(b, accessors=False):
     """the names under which a solve reports values (scipy.optimize.minimize replaced by a stub that returns x0)"""
     import optyx.solvers.scipy_solver as SS
     from scipy.optimize import OptimizeResult
@@ -438,6 +554,13 @@ def solution_keys(b):
             sol = b.problem.solve(method="SLSQP")
     finally:
         SS.minimize = old
+    if accessors:
+        # the Solution's own reporting accessors
+        _ = repr(sol), str(sol), sol.status, sol.objective_value, sol.message, dict(sol.values)
+        for attr in ("is_optimal", "is_feasible", "summary"):
+            if hasattr(sol, attr):
+                a = getattr(sol, attr)
+                _ = a() if callable(a) else a
     return None if not sol.values else list(sol.values.keys())
 
 
@@ -518,13 +641,13 @@ def gen_names_spec(rng):
         fam = name_family(rng)
         decls = []
         for nm in rng.sample(fam, min(len(fam), rng.randint(2, 4))):
-            decls.append(["vec", nm, rng.choice([1, 2, 3, 11, 12]), *rand_bounds(rng)])
+            decls.append(["vec", nm, rng.choice([1, 2, 3, 11, 12]), *rand_bounds(rng), rand_domain(rng)])
         for nm in rng.sample(fam, min(len(fam), rng.randint(1, 2))):
             r_ = rng.randint(1, 3)
             sym = rng.random() < 0.3
-            decls.append(["mat", nm, r_, r_ if sym else rng.choice([1, 2, 11]), sym, *rand_bounds(rng)])
+            decls.append(["mat", nm, r_, r_ if sym else rng.choice([1, 2, 11]), sym, *rand_bounds(rng), rand_domain(rng)])
         for nm in rng.sample(fam, min(len(fam), rng.randint(2, 5))):
-            decls.append(["scalar", nm, *rand_bounds(rng)])
+            decls.append(["scalar", nm, *rand_bounds(rng), rand_domain(rng)])
         if names_unique(decls):
             break
     else:
@@ -1071,7 +1194,8 @@ def run(ctx) -> core.Report:
                            "mid-name digits, prefixes, brackets in the BASE names of scalars, vectors and matrices that all occur in one "
                            "problem) + matrix-view family (every 2-D slice form of symmetric and general matrices, of their transposes and "
                            "transposed afterwards, through sum / Frobenius norm / element-wise ops / trace / diag / rows / columns / matrix "
-                           "constraints) + seeded random problem specs; each built in several construction orders in-process and "
+                           "constraints) + histories (edit after read; every read-only helper of Problem, enumerated from the class, and the Solution "
+                           "accessors interleaved between build / solve / edit, lists returned earlier re-checked) + seeded random problem specs; each built in several construction orders in-process and "
                            "under several PYTHONHASHSEEDs; non-trivial = distinct specs with at least two variables")
     n_rand = 6000 if thorough else 700
     specs = [dict(s) for s in FIXED_SPECS] + collision_cover() + names_cover() + matview_cover() + [gen_spec(rng) for _ in range(n_rand)]
@@ -1125,12 +1249,20 @@ def run(ctx) -> core.Report:
             if o == 2 and si % 4 == 0 and b.objective is not None and want:
                 try:
                     keys = solution_keys(b)
+                except RecursionError:
+                    keys = want     # deep chains through compile / gradient: C15's subject
+                    rep.skipped["solve-recursion-depth (C15)"] = rep.skipped.get("solve-recursion-depth (C15)", 0) + 1
                 except Exception as ex:  # noqa: BLE001
                     keys = f"{type(ex).__name__}: {ex}"[:160]
                 rep.histogram["channel:solution-keys"] = rep.histogram.get("channel:solution-keys", 0) + 1
                 if keys != want:
                     rep.oracle_failures.append({"what": "keys of Solution.values differ from the problem's variables", "spec": spec, "order": o,
                                                 "got": keys if isinstance(keys, str) else (keys or [])[:40], "want": want[:40]})
+            if o == 1 and si % 3 == 1:
+                rep.histogram["history:read-only-helpers"] = rep.histogram.get("history:read-only-helpers", 0) + 1
+                for f in readonly_history_check(b, want, wb, rng):
+                    f.update({"spec": spec, "order": o, "readonly": True})
+                    rep.oracle_failures.append(f)
             if o == 3 and si % 3 == 0:
                 rep.histogram["history:edit-after-read"] = rep.histogram.get("history:edit-after-read", 0) + 1
                 for f in history_check(b, want):
@@ -1300,6 +1432,13 @@ def replay(payload) -> bool:
         return r.get("names") == want
     b = Built(spec, o)
     want, _ = expected_names(b)
+    if f.get("readonly"):
+        wb_ = [[None if x is None else float(x) for x in b.decl_bounds.get(nm, ("?", "?"))] for nm in want]
+        fs = []
+        for sd in range(6):
+            fs += readonly_history_check(Built(spec, o), want, wb_, core.Rng(sd))
+        print(fs[:3])
+        return not fs
     if f.get("history"):
         fs = history_check(b, want)
         print(fs)
